@@ -712,13 +712,22 @@ def CS.enterFunction (cs : CS) (kind : FunKind) (name : Name) (tbl : Table) (d0 
     | .fn | .static => (cs.declareLocal d0 UNINITIALIZED_VAR).1
   cs.params ps
 
-/-- Exit of `function`: `end_compiler` (`emit_return`: an initialiser returns slot 0 with `GetLocal(0)`
-whatever the state of `self` is, every other function returns `Nil`), then the parent emits the constant or the closure with its capture operands. -/
+/-- What `emit_return` of an initialiser emits: `variable_get(self)`.  `self` is the parameter in slot 0, so the
+lookup is `resolve_local` answering slot 0: a plain local, or its box when a closure inside the initialiser captured
+it (repair 7304c16 — before it the instruction was `GetLocal(0)` whatever the state of `self` was, and an initialiser
+with such a closure answered the box instead of the instance). -/
+def Comp.selfReturn (c : Comp) : Ev :=
+  match c.locals.head? with
+  | some l => if l.sym.state = .localCaptured then .get (.box 0) else .get (.local 0)
+  | none => .get (.local 0)
+
+/-- Exit of `function`: `end_compiler` (`emit_return`: an initialiser returns `self` the way every other use reads it,
+every other function returns `Nil`), then the parent emits the constant or the closure with its capture operands. -/
 def CS.exitFunction (cs : CS) : CS :=
   match cs.chain with
   | [] => cs
   | c :: rest =>
-    let evs := if c.kind = some .init then c.evs ++ [.get (.local 0)] else c.evs ++ [.nil]
+    let evs := if c.kind = some .init then c.evs ++ [c.selfReturn] else c.evs ++ [.nil]
     let fr : FunRec := { name := c.name, captures := c.captures, evs := evs, d0 := c.d0 }
     let cs : CS := { cs with chain := rest, funs := cs.funs ++ [fr] }
     if c.captureCount = 0 ∧ c.kind = some .fn then cs.emit (.funConst c.name)
